@@ -1,3 +1,6 @@
+from copy import deepcopy
+
+
 class _NoDefault:
     pass
 
@@ -14,7 +17,10 @@ class Symbol:
         if self.default == NO_DEFAULT:
             raise ValueError("no value and no default")
         else:
-            return self.default
+            # a copy: the JSON decoder consumes the value it is handed (it pops
+            # array items and deletes map entries), and the default belongs to
+            # the caller's schema
+            return deepcopy(self.default)
 
     def __eq__(self, other):
         return self.__class__ == other.__class__
